@@ -1,11 +1,58 @@
-import PcfgVerif.Lemmas.Adopt
-import PcfgVerif.Lemmas.AdoptOrder
-import PcfgVerif.Lemmas.Best
-import PcfgVerif.Model.GridSpec
-/-! C01 — placeholder until the refinement proof lands: abstract core only. -/
-namespace Pcfg.C01
+import PcfgVerif.Properties.PQCore
+/-!
+# C01 — guesses are emitted in non-increasing probability order
 
-theorem abstract_exhaustive {α : Type} [DecidableEq α] (S : Adopt.Sys α) (s : Adopt.St α)
-    (h : Adopt.Inv S s) (hq : s.queue = []) : s.popped.Perm S.all := Adopt.exhausted_perm S s h hq
+The statements quantify over every `PAlg` (total preorder + monotone product: what IEEE doubles on
+finite non-negative values satisfy, including exact ties, underflow to 0 and denormals), every
+well-formed grid (any number of base structures, repeated variable types, single-entry variables),
+every tie-breaking of the heap (`Reach` pops *any* element `heappop` may return) and every prefix of
+the run.  Flags (`skip_brute`, `all_lower`, PRINCE folder) only change which grid the loader
+returns.  The decision fragments inside `findChildren` / `areYouMyChild` / `isTop` are generated from
+the current Python source, so these proofs are re-checked against what the code says now.
+-/
+namespace Pcfg.C01
+variable {P : Type} [Inhabited P]
+
+/-- every prefix of the emitted sequence is non-increasing in probability -/
+theorem C01_order (A : PAlg P) (g : Grid P) (hwf : WF A.toPOps g) (s : PQState)
+    (h : Reach A.toPOps g (initNodes g) s) : NonIncreasing A.toPOps g s.popped :=
+  pq_order A g hwf s h
+
+/-- the run never gets stuck before the queue is empty, whatever the ties -/
+theorem C01_progress (A : PAlg P) (g : Grid P) (q : List Node) (hq : q ≠ []) :
+    ∃ x, isTop A.toPOps g q x = true :=
+  pq_progress A g q hq
+
+/-- what `heappop` may return is a maximal-probability element of the queue -/
+theorem C01_top_is_max (A : PAlg P) (g : Grid P) (q : List Node) (x : Node)
+    (h : isTop A.toPOps g q x = true) :
+    x ∈ q ∧ ∀ y ∈ q, A.le (nodeProb A.toPOps g y) (nodeProb A.toPOps g x) = true := by
+  simp only [isTop, Bool.and_eq_true, List.all_eq_true] at h
+  refine ⟨by simpa using h.1, fun y hy => ?_⟩
+  have := h.2 y hy
+  simp only [Generated.PQ.queueLt, POps.cmp, POps.lt, Bool.not_not] at this
+  exact this
+
+/-- the probability attached to an emitted item is the left-to-right product `_find_prob` computes -/
+theorem C01_prob_is_product (O : POps P) (g : Grid P) (v : Node) :
+    nodeProb O g v = probFold O (g.struct v.b).bp (g.struct v.b).cols v.idx := rfl
+
+/-- index arithmetic of the source: children are `+1`, parents `-1`, roots start at 0 -/
+theorem C01_steps : Generated.PQ.fcStep = 1 ∧ Generated.PQ.aymcStep = 1 ∧
+    Generated.PQ.rootIndex = 0 ∧ Generated.PQ.aymcDefault = true := by decide
+
+omit [Inhabited P] in
+/-- the six rich comparisons of `QueueItem` are mutually consistent (so any correct heap gives the
+same notion of "top") -/
+theorem C01_queueitem_consistent (A : PAlg P) (a b : P) :
+    Generated.PQ.queueLe A.toPOps a b = !(Generated.PQ.queueGt A.toPOps a b) ∧
+    Generated.PQ.queueGe A.toPOps a b = !(Generated.PQ.queueLt A.toPOps a b) ∧
+    Generated.PQ.queueNe A.toPOps a b = !(Generated.PQ.queueEq A.toPOps a b) := by
+  simp [Generated.PQ.queueLe, Generated.PQ.queueGt, Generated.PQ.queueGe, Generated.PQ.queueLt,
+    Generated.PQ.queueNe, Generated.PQ.queueEq, POps.cmp, POps.lt]
+
+/-- non-vacuity: the concrete tied grid of `PQCore` is well-formed and its full run is ordered -/
+example : NonIncreasing natAlg.toPOps Pcfg.Example.g0 Pcfg.Example.final0.popped :=
+  C01_order natAlg Pcfg.Example.g0 Pcfg.Example.wf0 _ Pcfg.Example.reach0
 
 end Pcfg.C01
